@@ -499,7 +499,7 @@ theorem pidLeafX : LeafX PidInv where
   setClosed := by unfold setClosed; pid_frame_tac
   setStopping := by unfold setStopping; pid_frame_tac
   setRestarting := by unfold setRestarting; pid_frame_tac
-  clearRestarting := by unfold clearRestarting; pid_frame_tac
+  clearRestarting := fun b => by unfold clearRestarting; pid_frame_tac
   setLoopStop := fun b => by unfold setLoopStop; pid_frame_tac
   setSocketEvent := fun b => by unfold setSocketEvent; pid_frame_tac
   setSockReady := fun b => by unfold setSockReady; pid_frame_tac
